@@ -2,7 +2,7 @@ use std::borrow::Borrow;
 use std::collections::{HashMap, HashSet};
 use std::rc::Rc;
 
-use num_bigint::ToBigInt;
+use num_bigint::{Sign, ToBigInt};
 
 use clvm_rs::allocator::Allocator;
 
@@ -545,7 +545,13 @@ fn promote_args_to_bodyform(
 }
 
 fn choose_from_env_by_path(path_: Number, args_program: Rc<BodyForm>) -> Rc<BodyForm> {
-    let mut path = path_;
+    // A path is an unsigned bit string: a negative integer stands for the
+    // atom that spells it (0xbe is 190 as a path, not -66).
+    let mut path = if path_.sign() == Sign::Minus {
+        Number::from_bytes_be(Sign::Plus, &u8_from_number(path_))
+    } else {
+        path_
+    };
     let mut op_list = Vec::new();
     let two = 2_i32.to_bigint().unwrap();
 
